@@ -130,6 +130,19 @@ claim('C13',
       '(vectors of norm far from one, weakly entangled vectors at tol = 0) are mode N.',
       'Tolerances coinciding with a cumulative weight are excluded for compress (rounding of the preparatory sweep makes '
       'the tie undecidable); mode-N bounds 1e-10 / 5e-13.')
+claim('C03',
+      'TLC model checking of the homomorphism laws for the block / Kronecker constructions (Chain.tla, every operand '
+      'pair of a bounded universe) + TLC trace validation (TraceChain.tla) of histories over a pool of real MPS/MPO '
+      'objects: every result tensor network is contracted by explicit index sums in TLC and compared with the law '
+      'evaluated on the dense meaning of the operands',
+      'Vec / Mat are defined in ChainOps.tla by site-wise index sums; Chain.tla proves for all operands of the universe '
+      'that the direct-sum / Kronecker constructions satisfy the laws (two independent formulations must agree). Real '
+      'histories (add, sub, matmul, apply, identity, chained expressions such as ((A+B)@C) psi, dense and sparse '
+      'conversion) on Gaussian-integer objects with U(1) sectors, L = 1..4 incl. the single-site and L = 2 special cases, '
+      'independent bond profiles and non-trivial boundary charges are validated exactly by TLC. from_vector(tol=0) and '
+      'the split/merge round trip are SVD based and are checked as mode-N clauses in C13 / C12.',
+      'Data-independent control flow (multilinearity argument); sizes L <= 4, d <= 3; identity(scale) is modelled as the '
+      'code is (scale multiplies every site tensor).')
 
 def main():
     props = [json.loads(l) for l in open(os.path.join(VERIF, 'properties.jsonl'))]
